@@ -274,13 +274,28 @@ def parameter_rules(subject, rng):
     if "Attenuator" in mapped:
         out.append(("Attenuator-negative-thermal", {"type": "Attenuator", "modes": [0], "params": {"theta": 0.3, "mean_thermal_excitation": -1.0}}, "gate"))
     if "LossyInterferometer" in mapped:
-        out.append(("LossyInterferometer-singular-values", {"type": "LossyInterferometer", "modes": None, "params": {"matrix": {"$": "lossy", "n": d, "sv": [1.5] + [0.5] * (d - 1), "seed": 3}}}, "gate-all"))
+        sv = [0.5] * d
+        sv[rng.randrange(d)] = rng.pick([1.5, 1.05, 3.0])
+        out.append(("LossyInterferometer-singular-values", {"type": "LossyInterferometer", "modes": None, "params": {"matrix": {"$": "lossy", "n": d, "sv": sv, "seed": rng.randrange(50)}}}, "gate-all"))
     if "Thermal" in mapped:
-        out.append(("Thermal-negative", {"type": "Thermal", "modes": None, "params": {"mean_photon_numbers": [-0.5] + [0.1] * (d - 1)}}, "prep"))
+        vals = [0.1] * d
+        vals[rng.randrange(d)] = rng.pick([-0.5, -1e-3, -3.0])
+        out.append(("Thermal-negative", {"type": "Thermal", "modes": None, "params": {"mean_photon_numbers": vals}}, "prep"))
     if "NumberState" in mapped:
-        out.append(("NumberState-negative", {"type": "NumberState", "modes": None, "params": {"occupation_numbers": [-1] + [0] * (d - 1)}}, "prep"))
+        occ = [0] * d
+        occ[rng.randrange(d)] = -1
+        out.append(("NumberState-negative", {"type": "NumberState", "modes": None, "params": {"occupation_numbers": occ}}, "prep"))
     if "DistinguishableNumberState" in mapped:
-        out.append(("DistinguishableNumberState-overlap", {"type": "DistinguishableNumberState", "modes": None, "params": {"occupation_numbers": [1] * d, "particle_overlap": 1.7}}, "prep"))
+        bad = rng.pick(["scalar-high", "scalar-negative", "gram-not-psd", "gram-diagonal"] if d >= 2 else ["scalar-high", "scalar-negative"])
+        if bad == "scalar-high":
+            ov = 1.7
+        elif bad == "scalar-negative":
+            ov = -0.3
+        elif bad == "gram-not-psd":
+            ov = {"$": "nd", "data": [[1.0 if i == j else 1.5 for j in range(d)] for i in range(d)], "dtype": "complex128"}
+        else:
+            ov = {"$": "nd", "data": [[(0.7 if i == 0 else 1.0) if i == j else 0.2 for j in range(d)] for i in range(d)], "dtype": "complex128"}
+        out.append(("DistinguishableNumberState-overlap", {"type": "DistinguishableNumberState", "modes": None, "params": {"occupation_numbers": [1] * d, "particle_overlap": ov}}, "prep"))
     if "DensityMatrix" in mapped:
         out.append(("DensityMatrix-negative", {"type": "DensityMatrix", "modes": None, "params": {"ket": [-1] + [0] * (d - 1), "bra": [0] * d}}, "prep"))
     if "GeneraldyneMeasurement" in mapped:
